@@ -87,6 +87,13 @@ impl<'a> Output<'a> {
         unsafe { &mut *self.target }
     }
 
+    /// The depth of the capture stack (verification hook).
+    #[cfg(feature = "verif_hooks")]
+    #[inline(always)]
+    pub(crate) fn capture_depth(&self) -> usize {
+        self.capture_stack.len()
+    }
+
     /// Returns `true` if the output is discarding.
     #[cfg(feature = "multi_template")]
     #[inline(always)]
